@@ -226,6 +226,31 @@ def run(ctx):
             _cmp(ctx, 'element_data_from_sym', lut.element_data_from_sym, [v], kind='sym')
             if r[0] == 'ok' and 1 <= r[1] <= 118 and s in OFFICIAL and OFFICIAL[r[1] - 1] != s:
                 ctx.violation('lut.element_Z_from_sym', 'official-sym', 'an official symbol maps to another element', {'kind': 'plain', 'sym': v, 'got': r})
+    # every symbol the table knows (older systematic three-letter ones - Uun ... Uuo, Uue, Ubn - included) is a valid item
+    # of an element selection, alone and as the end points of a range; 119 and 120 compact to symbols that expand back
+    for t in lut._data_table:
+        zsym = impl.call(lut.element_Z_from_sym, t[0])
+        if zsym[0] != 'ok':
+            continue
+        for v in (t[0], t[0].upper(), t[0].capitalize()):
+            r = impl.call(misc.expand_elements, v)
+            ctx.case(('expand-symbol', v), len(v) > 2, 'expand:symbol')
+            if r != ('ok', [zsym[1]]):
+                ctx.violation('misc.expand_elements', 'symbol', 'the symbol %r of the element table is not expanded to [%d] (%s)' % (v, zsym[1], r), {'kind': 'plain', 'sym': v})
+    long_syms = [t[0] for t in lut._data_table if len(t[0]) > 2]
+    for a, b_ in zip(long_syms, long_syms[1:]):
+        za, zb = lut.element_Z_from_sym(a), lut.element_Z_from_sym(b_)
+        if za < zb:
+            r = impl.call(misc.expand_elements, '%s-%s' % (a.capitalize(), b_))
+            ctx.case(('expand-symbol-range', a, b_), True, 'expand:symbol-range')
+            if r != ('ok', list(range(za, zb + 1))):
+                ctx.violation('misc.expand_elements', 'symbol-range', 'the range %s-%s is not expanded to %d..%d (%s)' % (a, b_, za, zb, r), {'kind': 'plain'})
+    for S in ([119], [120], [119, 120], [117, 118, 119, 120], [1, 119]):
+        c = impl.call(misc.compact_elements, S)
+        back = impl.call(misc.expand_elements, c[1]) if c[0] == 'ok' else c
+        ctx.case(('compact-high', tuple(S)), True, 'compact:Z>118')
+        if back != ('ok', S):
+            ctx.violation('misc.expand_elements', 'roundtrip:Z>118', 'expand_elements(compact_elements(%s)) = %s (compact form %s)' % (S, back, c), {'kind': 'plain', 'S': S})
     for s in names:
         for v in {s, s.upper(), s.capitalize()}:
             _cmp(ctx, 'element_Z_from_name', lut.element_Z_from_name, [v], kind='name')
